@@ -14,11 +14,12 @@ structure Params where
   defaultNumPages : Nat
   minPagesize : Nat
   minNumPages : Nat
+  pagesizeAlign : Nat   -- accepted page sizes are multiples of this (pages are read in place as 8-byte aligned structs)
   deriving DecidableEq, Repr
 
 def Params.Valid (p : Params) : Prop :=
   1 ≤ p.minKeysPerNode ∧ 0 < p.fillDen ∧ p.fillNum ≤ p.fillDen ∧ 0 < p.fillNum ∧ 0 < p.mergeDivisor ∧
-  0 < p.minAllocSize ∧ 4 ≤ p.minNumPages ∧ p.minNumPages ≤ p.defaultNumPages ∧ 1024 ≤ p.minPagesize
+  0 < p.minAllocSize ∧ 4 ≤ p.minNumPages ∧ p.minNumPages ≤ p.defaultNumPages ∧ 1024 ≤ p.minPagesize ∧ 8 ∣ p.pagesizeAlign
 
 instance (p : Params) : Decidable p.Valid := by unfold Params.Valid; infer_instance
 
